@@ -75,9 +75,9 @@ theorem C16_model_meets_spec (cmd : Cmd) (pkg : Pkg) (fl : Flags) (h : region cm
         · simp [hnd] at h
   · simp [hv] at h
 
-/-- the success message lists exactly the written files (all inputs, no side condition) -/
+/-- the success message lists exactly the written files, in sorted order (all inputs, no side condition) -/
 theorem C16_listed (cmd : Cmd) (pkg : Pkg) (fl : Flags) (w : List (OutName × List String))
-    (l : List OutName) (b : Bool) (hr : run cmd pkg fl = .done w l b) : l = w.map (·.1) := by
+    (l : List OutName) (b : Bool) (hr : run cmd pkg fl = .done w l b) : l = sortNames cmd (w.map (·.1)) := by
   unfold run at hr
   split at hr
   · cases hr
@@ -92,21 +92,21 @@ theorem C16_listed (cmd : Cmd) (pkg : Pkg) (fl : Flags) (w : List (OutName × Li
 /-- written files = specified files, whenever the specification asks for files -/
 theorem C16_written_eq (cmd : Cmd) (pkg : Pkg) (fl : Flags) (h : region cmd pkg fl = .WF)
     (fs : List (OutName × List String)) (hs : spec cmd pkg fl = some (.files fs)) :
-    ∃ b, run cmd pkg fl = .done fs (fs.map (·.1)) b := by
+    ∃ b, run cmd pkg fl = .done fs (sortNames cmd (fs.map (·.1))) b := by
   obtain ⟨s, hs', hmeets⟩ := C16_model_meets_spec cmd pkg fl h
   rw [hs] at hs'
   cases hs'
   cases hr : run cmd pkg fl with
   | stop st => simp [hr, meets] at hmeets
   | done w l b =>
-    simp only [hr, meets, Bool.and_eq_true, beq_iff_eq] at hmeets
-    exact ⟨b, by rw [hmeets.1, hmeets.2]⟩
+    simp only [hr, meets, beq_iff_eq] at hmeets
+    exact ⟨b, by rw [C16_listed cmd pkg fl w l b hr, hmeets]⟩
 
 /-- the set of types for which output is generated: the named types / the eligible types declared in the
     file / the eligible types of the package -/
 theorem C16_selection (cmd : Cmd) (pkg : Pkg) (fl : Flags) (h : region cmd pkg fl = .WF)
     (fs : List (OutName × List String)) (hs : spec cmd pkg fl = some (.files fs)) :
-    (∃ b, run cmd pkg fl = .done fs (fs.map (·.1)) b) ∧
+    (∃ b, run cmd pkg fl = .done fs (sortNames cmd (fs.map (·.1))) b) ∧
     fs.flatMap (·.2) =
       match mode fl with
       | some (.named ns _) => ns
@@ -184,8 +184,8 @@ theorem C16_ineligible_skipped (cmd : Cmd) (pkg : Pkg) (fl : Flags) (h : region 
       | star sep => simp only [hm] at hs; (repeat' split at hs) <;> cases hs
   | files fs =>
     have hsel := (C16_selection cmd pkg fl h fs hs).2
-    simp only [hr, meets, Bool.and_eq_true, beq_iff_eq] at hmeets
-    rw [hmeets.1, hsel]
+    simp only [hr, meets, beq_iff_eq] at hmeets
+    rw [hmeets, hsel]
     cases hm : mode fl with
     | none => simp
     | some md =>
@@ -372,7 +372,7 @@ theorem C16_F_star_sep_witness :
     region .new wSepPkg wSepFl = .F_star_sep ∧
     spec .new wSepPkg wSepFl = some (.files [(⟨"a", some "item"⟩, ["Item"]), (⟨"b", some "color"⟩, ["Color"])]) ∧
     run .new wSepPkg wSepFl
-      = .done [(⟨"a", some "item"⟩, ["Item"]), (⟨"a", some "color"⟩, ["Color"])] [⟨"a", some "item"⟩, ⟨"a", some "color"⟩] false := by
+      = .done [(⟨"a", some "item"⟩, ["Item"]), (⟨"a", some "color"⟩, ["Color"])] [⟨"a", some "color"⟩, ⟨"a", some "item"⟩] false := by
   decide
 
 /-! ### formerly finding regions, now asserted (repaired in /repo f3054bd, 081702e, ecd1cf1) -/
